@@ -996,4 +996,28 @@ def _h_norms(ctx, r, rng):
         k1 = ctx.call(kp_norm, x.copy(), min(m, n), 1)
         if k1 is not FAILED:
             ctx.check("O2:kp_norm", None, dev=abs(float(k1) - float(tn)) / (1 + s.sum()), tol=1e-9, sig=("(r,1)=trace-norm",), nt=True, mech="kp_norm:(rank,1)!=trace_norm", detail={"shape": [m, n]})
+    # structured operands: Hermitian indefinite matrices with a designed spectrum (the largest magnitude may belong to a negative eigenvalue,
+    # magnitudes may tie), diagonal and rank-deficient matrices - the norms depend on the singular values only
+    dd = int(rng.integers(2, 6))
+    spec_ = rng.uniform(0.2, 3.0, size=dd) * rng.choice([-1.0, 1.0], size=dd)
+    spec_[int(rng.integers(0, dd))] = -float(np.abs(spec_).max()) - 0.5  # a negative eigenvalue of the largest magnitude
+    if dd >= 3 and r % 3 == 0:
+        spec_[1] = -spec_[0]  # equal magnitudes, opposite signs
+    if dd >= 3 and r % 5 == 0:
+        spec_[2] = 0.0
+    uu = gen.haar(rng, dd, real=not bool(r % 2)) if r % 4 else np.eye(dd)
+    h = ref.herm(uu @ np.diag(spec_) @ uu.conj().T)
+    if not r % 2:
+        h = h.real
+    sv = np.sort(np.abs(spec_))[::-1]
+    for kk in range(1, dd + 1):
+        got_h = ctx.call(kp_norm, h.copy(), kk, p)
+        if got_h is not FAILED:
+            want_h = np.linalg.norm(sv[:kk], ord=p)
+            ctx.check("O2:kp_norm", None, dev=abs(float(got_h) - want_h) / (1 + want_h), tol=1e-9, sig=("hermitian-indefinite", kk >= dd, str(p), bool(r % 4)), nt=True,
+                      mech="kp_norm:differs-from-singular-values[hermitian-indefinite]", detail={"spectrum": spec_, "k": kk, "p": str(p), "got": got_h, "want": want_h})
+    tn_h = ctx.call(trace_norm, h.copy())
+    if tn_h is not FAILED:
+        ctx.check("O2:trace_norm", None, dev=abs(float(tn_h) - sv.sum()) / (1 + sv.sum()), tol=1e-9, sig=("hermitian-indefinite",), nt=True,
+                  mech="trace_norm:differs-from-singular-values[hermitian-indefinite]", detail={"spectrum": spec_})
     ctx.sample("O2:kp_norm", {"shape": [m, n], "k": k, "p": str(p)})
